@@ -270,7 +270,9 @@ func (m *mux) write(id ConnID, buf []byte) (int, error) {
 		n, err = m.trunk.Write(data[:size])
 		if err != nil {
 			err = fmt.Errorf("failed to write payload to trunk: %w", err)
-			if n != 0 {
+			if n != 0 || size != 0 {
+				// the header of this frame is on the trunk already: without its
+				// whole payload the stream has lost frame synchronisation
 				m.setError(err)
 				m.Close()
 			}
